@@ -418,6 +418,33 @@ def ob_product(cfg, N, square):
             "sample": "%s: identity over %d opaque %dx%d-bit word products, %d wrap quotients" % (kname, len(L.products), wb, wb, len(L.wraps))}
 
 
+def wrap_search(L, mismatch, per_query_ms=2500, budget_s=150):
+    """for every truncation recorded by the affine domain: is there an input whose quotient is non-zero (short query)?  If so evaluate `mismatch(env)` at
+    the model; returns the first environment (variable name -> value) for which it is true, else None"""
+    import time
+    t0 = time.time()
+    base = list(L.solver.assertions())
+    for ky, (r, q) in list(L.wraps.items()):
+        if q.is_const():
+            continue
+        for cond in ([L.z(q) >= 1] if q.lo >= 0 else [L.z(q) >= 1, L.z(q) <= -1]):
+            if time.time() - t0 > budget_s:
+                return None
+            s = z3.SimpleSolver()      # a fresh incremental-core solver: the default tactic pipeline answers these small satisfiable queries poorly
+            s.set("timeout", per_query_ms)
+            s.add(*base)
+            s.add(cond)
+            if s.check() == z3.sat:
+                m = s.model()
+                env = {L.names[i]: m.eval(L.zv[i], model_completion=True).as_long() for i in range(len(L.names))}
+                try:
+                    if mismatch(env):
+                        return env
+                except Exception:
+                    pass
+    return None
+
+
 def ob_montgomery(cfg, N):
     """FpBase<N>::montgomery_reduce: at the call to reduce(), T*2^N = a + U*p and T < 2p for every a < p*2^N (T = the N-bit
     value handed to reduce, U = sum u_i 2^(wi)); reduce itself is a separate obligation.  Together with T1 (uniqueness) the result
@@ -467,8 +494,21 @@ def ob_montgomery(cfg, N):
     T = lin_sum(L, seen["T"], wb)
     U = lin_sum(L, us, wb)
     ident = L.z(T) * (1 << N) == L.z(A) + L.z(U) * p
-    ok = L.prove(ident, "montgomery identity")
+    ok = L.prove_hard(ident, "montgomery identity", 100)
     if ok is None:
+        # The solver gave up on the identity.  A lost carry is a truncation whose quotient can be 1 without being propagated: ask, truncation by
+        # truncation, for an input that makes its quotient non-zero (small queries), evaluate the routine's own affine forms at that input and
+        # compare with the definition computed in integers; an input found this way is a counterexample in its own right.
+        def reference(env):
+            a_ = sum(env["a%d" % i] << (wb * i) for i in range(2 * nw))
+            for i in range(nw):
+                u = ((a_ >> (wb * i)) & ((1 << wb) - 1)) * inv % (1 << wb)
+                a_ += (u * p) << (wb * i)
+            return a_ >> N
+        hit = wrap_search(L, lambda env: sum(L.evaluate(w, env) << (wb * i) for i, w in enumerate(seen["T"])) != reference(env))
+        if hit is not None:
+            raise Violation(key + ":identity", "FpBase<%d>::montgomery_reduce (%s): T*2^%d != a + U*p at the call to reduce() (input found by the lost-carry search "
+                            "after the solver gave up on the identity)" % (N, cfg, N), dict(extra, a=hex(model_words(hit, "a", 2 * nw, wb))))
         raise Inconclusive("solver unknown on the Montgomery identity (%s, %d)" % (cfg, N))
     if not ok:
         env = L.model_for(z3.Not(ident)) or {}
